@@ -29,6 +29,14 @@ try:
 except Exception:
     pass
 
+def scratch_base():
+    """private scratch directory root: tmpfs when there is one, the temp dir otherwise; removed
+    by whoever created it"""
+    import tempfile
+    root = '/dev/shm' if os.path.isdir('/dev/shm') and os.access('/dev/shm', os.W_OK) else tempfile.gettempdir()
+    return root
+
+
 # import-time snapshot of the interface cache (Properties, org.freedesktop.DBus, ...)
 KNOWN_AT_IMPORT = dict(getattr(t_iface.DBusInterface, 'knownInterfaces', {}))
 
@@ -161,7 +169,7 @@ class Seams:
         import getpass
         import pwd
         import shutil
-        base = os.environ.get('VERIF_SCRATCH') or '/dev/shm/txdbus-sim-%d' % os.getppid()
+        base = os.environ.get('VERIF_SCRATCH') or os.path.join(scratch_base(), 'txdbus-sim-%d' % os.getppid())
         path = os.path.join(base, 'w%d' % os.getpid())
         shutil.rmtree(path, ignore_errors=True)
         os.makedirs(path, 0o700)
